@@ -220,12 +220,14 @@ def problem_kinds(problems: Sequence[str]) -> str:
     return "+".join(sorted(out))
 
 
-def check_result(ctx, name: str, tagstr: str, R, expect: np.ndarray, info="", boolean: bool = False) -> None:
+def check_result(ctx, name: str, tagstr: str, R, expect: np.ndarray, info="", boolean: bool = False,
+                 split=None) -> None:
     """Clauses `<name>:returns-tensor|shape|wellformed(<how>)|values [tags]` for one returned object.
 
     expect: the NumPy result on the expanded arrays (bool -> 0/1).  Explicitly stored zeros are allowed (they
     denote 0); any other ill-formedness is a violation, after which the values are still compared when the object
-    can be expanded unambiguously (float-typed integral subscripts)."""
+    can be expanded unambiguously (float-typed integral subscripts).  split = (name, boolean mask): the values
+    clause is split into `values@name` (positions inside the mask) and `values` (all other positions)."""
     expect = np.asarray(expect).astype(float)
     sfx = f" [{tagstr}]"
     if not ctx.check(isinstance(R, (ttb.sptensor, ttb.tensor)), f"{name}:returns-tensor{sfx}", type(R).__name__):
@@ -256,10 +258,20 @@ def check_result(ctx, name: str, tagstr: str, R, expect: np.ndarray, info="", bo
                          f"{data.shape} {data.dtype}"):
             return
         got = data.astype(float)
-    ctx.check(ref.same_exact(got, expect), f"{name}:values{sfx}", f"{ref.diff_info(got, expect)} {info}")
+    if split is None or got.shape != expect.shape:
+        ctx.check(ref.same_exact(got, expect), f"{name}:values{sfx}", f"{ref.diff_info(got, expect)} {info}")
+        return
+    # two clauses: the positions of the named class, and all the others (so that a known defect that is confined
+    # to one class of positions does not excuse a wrong value anywhere else)
+    where, mask = split
+    mask = np.asarray(mask, dtype=bool)
+    g_in, e_in = np.where(mask, got, 0.0), np.where(mask, expect, 0.0)
+    g_out, e_out = np.where(mask, 0.0, got), np.where(mask, 0.0, expect)
+    ctx.check(ref.same_exact(g_out, e_out), f"{name}:values{sfx}", f"{ref.diff_info(g_out, e_out)} {info}")
+    ctx.check(ref.same_exact(g_in, e_in), f"{name}:values@{where}{sfx}", f"{ref.diff_info(g_in, e_in)} {info}")
 
 
-def run_op(ctx, name: str, tagstr: str, fn, expect_fn, info="") -> None:
+def run_op(ctx, name: str, tagstr: str, fn, expect_fn, info="", split=None) -> None:
     """Call pyttb (exception = violation of `<name>:<Exc>@frame [tags]`), then check; never aborts the case."""
     try:
         with ctx.sut(f"{name} [{tagstr}]"):
@@ -268,7 +280,21 @@ def run_op(ctx, name: str, tagstr: str, fn, expect_fn, info="") -> None:
         return
     with np.errstate(all="ignore"):
         expect = expect_fn()
-    check_result(ctx, name, tagstr, R, expect, info, boolean=name.split("/")[0] in COMPARE + LOGIC + ("not",))
+    check_result(ctx, name, tagstr, R, expect, info, boolean=name.split("/")[0] in COMPARE + LOGIC + ("not",),
+                 split=split)
+
+
+def value_split(name: str, A: np.ndarray, B: np.ndarray):
+    """Position classes to which an already-known value defect is confined (see known_findings/C03.json):
+    sptensor*sptensor, ==, / pair the *common* entries; S.logical_and(T) errs where S is stored and T is zero;
+    S/T errs where both are zero."""
+    if name in ("mul/sp-sp", "eq/sp-sp", "div/sp-sp"):
+        return ("common", (A != 0) & (B != 0))
+    if name == "and/sp-tn":
+        return ("S-stored-T-zero", (A != 0) & (B == 0))
+    if name == "div/sp-tn":
+        return ("both-zero", (A == 0) & (B == 0))
+    return None
 
 
 # --------------------------------------------------------------------------
